@@ -108,6 +108,15 @@ SetNumberCfg(c)   == Setter("num", c, "set_num")
 SetPercentCfg(c)  == Setter("pct", c, "set_pct")
 SetMoneyCfg(c)    == Setter("mon", c, "set_mon")
 
+\* update_currency(spelling, rate): the rate of exactly the currency the spelling denotes (alias first, then code);
+\* returns FALSE and changes nothing for a spelling that denotes no currency
+UpdateCurrency(s, q) ==
+  /\ Idle
+  /\ LET c == Canon(calc, s) IN
+       /\ calc' = IF c = "none" THEN calc ELSE SetRate(calc, c, q)
+       /\ last' = [call |-> "update_currency", ret |-> c # "none"]
+  /\ UNCHANGED <<sess, run, today>>
+
 (* ---- environment ------------------------------------------------------ *)
 Tick == Idle /\ today' = today + 1 /\ last' = [call |-> "tick"] /\ UNCHANGED <<calc, sess, run>>
 
@@ -144,7 +153,7 @@ FailKeepsEnvOn(lineset) ==
      IN  m.slot.k \in {"fails", "err"} => m.env = sess[s].env
 
 \* C04 as action properties
-EvalFramesCalc   == [][calc' = calc \/ last'.call \in {"set_dec", "set_tho", "set_num", "set_pct", "set_mon"}]_vars
+EvalFramesCalc   == [][calc' = calc \/ last'.call \in {"set_dec", "set_tho", "set_num", "set_pct", "set_mon", "update_currency"}]_vars
 ExecuteIsPrivate == [][last'.call = "execute" /\ last' # last => sess' = sess]_vars
 SessionIsolation ==
   [][\A s \in DOMAIN sess : (run.active /\ run.s # s) => (s \in DOMAIN sess' /\ sess'[s] = sess[s])]_vars
